@@ -187,6 +187,27 @@ def label_for(diag, labels, fnmap, text_lines, gen_name=None):
     return ['unlabelled:' + kind[:40]], None
 
 
+def _uncompilable_bodies(r, fnmap, gen_name):
+    """Extracted functions whose BODY holds the primary span of a compile / front-end error (never a verification failure)."""
+    out = []
+    for d in r['diags']:
+        d = resolve_spans(d, gen_name)
+        if classify_message(d) != 'undecided' or re.search(r'rlimit|Resource limit', d.get('message', '')):
+            continue
+        own = [s_ for s_ in d.get('spans', []) if os.path.basename(s_.get('file_name', '')) == gen_name]
+        prim = [s_ for s_ in own if s_.get('is_primary')] or own
+        if not prim:
+            return []      # an error that cannot be located: no isolation at all
+        f = fn_at(fnmap, prim[0]['line_start'])
+        if not f or 'body_first' not in f or prim[0]['line_start'] < f['body_first']:
+            return []      # outside every extracted body (shim, spec text, signature): the unit as a whole is undecided
+        if f not in out:
+            f['_msgs'] = []
+            out.append(f)
+        f['_msgs'].append('%s (line %d)' % (d.get('message', '')[:120], prim[0]['line_start']))
+    return out
+
+
 def run_unit(unit, tier, seed):
     """Expand + verify one Verus unit.  Returns dict with obligations, failures, undecided."""
     u = registry.UNITS[unit]
@@ -245,7 +266,35 @@ def run_unit(unit, tier, seed):
     r = run_verus(out, seed=(seed if seed else None), rlimit=u.get('rlimit'))
     res['cmd'] = r['cmd']
     res['wall_s'] = r['wall_s']
+    # --- per-function isolation.  A body that left the verifiable subset (rustc / Verus front-end error whose primary span lies
+    # inside the BODY of an extracted function) is replaced by `external_body` under the same contract, line count preserved:
+    # that function's obligations are undecided, the others are still decided against its contract (verification is modular).
+    isolated = []
+    for _round in range(3):
+        bad = _uncompilable_bodies(r, fnmap, unit + '.rs')
+        bad = [f for f in bad if f['fn'] not in [x['fn'] for x in isolated] or f not in isolated]
+        bad = [f for f in bad if f not in isolated]
+        if not bad:
+            break
+        for f in bad:
+            msgs = f.pop('_msgs')
+            isolated.append(f)
+            res['undecided'].append('body of %s is outside the verifiable subset on this tree (%s); isolated under its contract: its obligations %s are undecided'
+                                    % (f['fn'], '; '.join(msgs)[:300], f['label']))
+            for n in range(f['body_first'] - 1, f['gen_last']):
+                text_lines[n] = ''
+            text_lines[f['body_first'] - 1] = '{ unimplemented!() }'
+            text_lines[f['gen_first'] - 1] = '#[verifier::external_body] ' + text_lines[f['gen_first'] - 1]
+        open(out, 'w').write('\n'.join(text_lines))
+        r = run_verus(out, seed=(seed if seed else None), rlimit=u.get('rlimit'))
+        res['wall_s'] += r['wall_s']
+    res['isolated'] = [f['fn'] for f in isolated]
     _collect(r, res, labels, fnmap, text_lines, canaries, unit)
+    if isolated:
+        # nothing about an isolated function counts as discharged
+        gone = set(l for f in isolated for n in range(f['gen_first'], f['gen_last'] + 1) for l in labels.get(n, [])) | set(x for f in isolated for x in f['label'].split(','))
+        still = set(l for n, ls in labels.items() for l in ls if not any(f['gen_first'] <= n <= f['gen_last'] for f in isolated)) | set(x for f in fnmap if f not in isolated for x in f['label'].split(','))
+        res['obligations'] = [o for o in res['obligations'] if o not in gone or o in still]
     if tier == 'thorough' and not res['undecided']:
         # seed stability
         base_fail = sorted(res['failed'])
